@@ -155,6 +155,8 @@ def check(run):
     _r6(run, fams)
     _r7(run, mods)
     _r8(run, mods)
+    from ..cachekey import check_caches
+    check_caches(run, list(mods.values()) + [prog.modules['cherab.openadas.install']], 'C06-K')
 
 
 def _where(fm, role, node=None):
